@@ -179,8 +179,8 @@ def finish(prop, tier, seed, results, t0, extra_cov=None, level="proof", checker
     evid = {"property_id": prop, "tier": tier, "seed": int(seed), "level": level, "coverage": cov,
             "assumptions": [ASSUMPTION_TEXT.get(a, a) for a in sorted(assumptions)],
             "wall_s": round(wall, 2), "violations": nviol}
-    os.makedirs(os.path.join(H.VERIF, "evidence"), exist_ok=True)
-    with open(os.path.join(H.VERIF, "evidence", prop + ".json"), "w") as f:
+    os.makedirs(H.EVID, exist_ok=True)
+    with open(os.path.join(H.EVID, prop + ".json"), "w") as f:
         json.dump(evid, f, indent=1, default=str)
 
     for l in lines:
